@@ -1,8 +1,9 @@
 /-
 C10 — executable model of the POSIX path algebra used by
-`ExternalTensor._check_path_containment` (src/onnx_ir/_core.py:750-815), of the reads guarded by
-it (`_load` 817-831, `tofile` 917-930) and of `load()`'s base-directory derivation
-(src/onnx_ir/_io.py:32-38).  Core Lean only.
+`ExternalTensor._check_path_containment` (src/onnx_ir/_core.py:760-825), of the reads guarded by
+it (`_load` 827-841, `tofile` 931-944) and of `load()`'s base-directory derivation
+(src/onnx_ir/_io.py:32-41).  Core Lean only.  Line numbers are those of /repo when this was
+written (they drift with unrelated fixes; the function names are the stable anchors).
 
 Strings are `List Char` (`Str`); the separator is the character '/' (POSIX; `os.path.normcase`
 is the identity there).  The functions transcribe CPython 3.12 `posixpath`:
@@ -101,25 +102,25 @@ def dirname (p : Str) : Str :=
 /-- `posixpath.split` (100-109). -/
 def psplit (p : Str) : Str × Str := (dirname p, tailPart p)
 
-/-- `base_abs if base_abs.endswith(os.sep) else base_abs + os.sep` (_core.py:783, 794). -/
+/-- `base_abs if base_abs.endswith(os.sep) else base_abs + os.sep` (_core.py:793, 804). -/
 def sepBase (b : Str) : Str := if endsWithSep b then b else b ++ ['/']
 
 /-- `path_abs == base_abs or path_abs.startswith(sep_base)` : the negation of the raise
-condition at _core.py:784 and 795 (character level). -/
+condition at _core.py:794 and 805 (character level). -/
 def contained (base path : Str) : Bool :=
   path == base || (sepBase base).isPrefixOf path
 
-/-- `ExternalTensor.path` (_core.py:726-728). -/
+/-- `ExternalTensor.path` (_core.py:730-733). -/
 def tensorPath (base loc : Str) : Str := pjoin base loc
 
-/-- Check 1 (_core.py:779-789): passes iff `true`. -/
+/-- Check 1 (_core.py:789-799): passes iff `true`. -/
 def check1 (cwd base loc : Str) : Bool :=
   contained (abspath cwd base) (abspath cwd (tensorPath base loc))
 
 /-- The non-empty pieces of a path string: its components. -/
 def comps (p : Str) : List Str := (splitSep p).filter (· ≠ [])
 
-/-- `load()`'s base-directory derivation (_io.py:34-37) **as fixed for D23**: an empty dirname
+/-- `load()`'s base-directory derivation (_io.py:34-40) **as fixed for D23**: an empty dirname
 (bare file name) becomes "." . -/
 def loadBase (modelPath : Str) : Str :=
   let d := dirname modelPath
@@ -267,24 +268,24 @@ def realpath (fs : FS) (kfuel fuel : Nat) (cwdS : Str) (cwd : Loc) (filename : S
 
 /-- Which step of the guarded read stops it. -/
 inductive Verdict where
-  | skipped   -- empty base_dir: no check at all (_core.py:770-775)
-  | rej1      -- check 1 raises (784-789)
-  | rej2      -- check 2 raises (795-800)
-  | rej3      -- check 3 raises (810-815)
+  | skipped   -- empty base_dir: no check at all (_core.py:780-785)
+  | rej1      -- check 1 raises (794-799)
+  | rej2      -- check 2 raises (805-810)
+  | rej3      -- check 3 raises (820-825)
   | pass
   deriving Repr, DecidableEq
 
-/-- Check 2 (_core.py:792-800). -/
+/-- Check 2 (_core.py:802-810). -/
 def check2 (fs : FS) (kfuel fuel : Nat) (cwdS : Str) (cwd : Loc) (base loc : Str) : Bool :=
   contained (realpath fs kfuel fuel cwdS cwd base) (realpath fs kfuel fuel cwdS cwd (tensorPath base loc))
 
-/-- Check 3 (_core.py:806-815): `nlink > 1` raises; a failing stat counts as 1. -/
+/-- Check 3 (_core.py:816-825): `nlink > 1` raises; a failing stat counts as 1. -/
 def check3 (fs : FS) (kfuel fuel : Nat) (cwdS : Str) (cwd : Loc) (base loc : Str) : Bool :=
   match statNlink fs kfuel cwd (realpath fs kfuel fuel cwdS cwd (tensorPath base loc)) with
   | some n => decide (n ≤ 1)
   | none => true
 
-/-- `ExternalTensor._check_path_containment` (_core.py:750-815): the three layers in order. -/
+/-- `ExternalTensor._check_path_containment` (_core.py:760-825): the three layers in order. -/
 def checkContainment (fs : FS) (kfuel fuel : Nat) (cwdS : Str) (cwd : Loc) (base loc : Str) : Verdict :=
   if base = [] then Verdict.skipped
   else if check1 cwdS base loc = false then Verdict.rej1
@@ -303,9 +304,9 @@ inductive ReadResult where
   | ok (bytes : List Nat)
   deriving Repr, DecidableEq
 
-/-- The read entry points: `numpy()` (890-899), `tobytes()` (901-915), `__array__` (865-870) and
-serialisation to raw bytes (external_data.py:270, through `numpy()`) go through `_load` (817-831);
-`tofile` (917-930) has its own check-then-open. -/
+/-- The read entry points: `numpy()` (901-910), `tobytes()` (912-929), `__array__` (876-881) and
+serialisation to raw bytes (external_data.py:271, through `numpy()`) go through `_load` (827-841);
+`tofile` (931-944) has its own check-then-open. -/
 inductive EntryPoint where
   | numpy | tobytes | array | serializeRaw | tofile
   deriving Repr, DecidableEq
@@ -329,7 +330,7 @@ def produce (ep : EntryPoint) (content : List Nat) (offset length : Nat) : ReadR
     else ReadResult.ok ((content.drop offset).take length)
 
 /-- A guarded read: `_check_path_containment()` first, then `open(self.path, "rb")`, for every
-entry point (`_load` 818-826, `tofile` 928-930).  Returns the result and the event trace. -/
+entry point (`_load` 828-836, `tofile` 942-944).  Returns the result and the event trace. -/
 def read (fs : FS) (kfuel fuel : Nat) (cwdS : Str) (cwd : Loc) (base loc : Str) (offset length : Nat)
     (ep : EntryPoint) : ReadResult × List Ev :=
   let v := checkContainment fs kfuel fuel cwdS cwd base loc
